@@ -94,7 +94,8 @@ func (s *StoresStats) FilterUnhealthyStore(cluster core.StoreSetInformer) {
 	defer s.Unlock()
 	for storeID := range s.rollingStoresStats {
 		store := cluster.GetStore(storeID)
-		if store.IsTombstone() || store.IsUnhealthy() || store.IsPhysicallyDestroyed() {
+		// The store record may have been removed already (e.g. tombstone records cleaned up).
+		if store == nil || store.IsTombstone() || store.IsUnhealthy() || store.IsPhysicallyDestroyed() {
 			delete(s.rollingStoresStats, storeID)
 		}
 	}
